@@ -177,7 +177,10 @@ class Tap:
                     caps.append({"name": name, "kind": "const", "shape": [str(d) for d in arr.shape],
                                  "dtype": str(arr.dtype), "bytes": list(arr.tobytes())})
                 except Exception:
-                    caps.append({"name": name, "kind": "static", "type": type(raw).__name__})
+                    # a Python object (callable, config object …): its value is its identity
+                    o = self._ordinal(raw)
+                    caps.append({"name": name, "kind": "const", "shape": [], "dtype": "object:" + type(raw).__name__,
+                                 "bytes": [o // 256, o % 256]})
         injected = []
         passed = {c["name"] for c in caps}
         for name in sorted(call_names):
@@ -461,7 +464,7 @@ def run(chk: Check) -> None:
     thorough = chk.tier == "thorough"
     proved = chk.prove(MODS, checker=thorough)
 
-    n_prog = 90 if not thorough else 700
+    n_prog = 100 if not thorough else 700
     descs = c07_progs.generate(rng, n_prog)
     probes = [{"pattern": "probe", "id": pid} for pid in c07_progs.PROBES]
 
